@@ -68,6 +68,7 @@ fn run_inner(case: &str, args: &Value) -> Option<Outcome> {
         "c09_validate" => Some(c09::validate(args)),
         "c12_parse" => Some(c12::parse(args)),
         "c15_quoted" => Some(strings::quoted(args)),
+        "c15_values" => Some(strings::value_roundtrip(args)),
         "c17_escape" => Some(strings::escape(args)),
         "c17_input_value" | "c17_sdl" => Some(c17_sdl::sdl(args)),
         _ => None,
@@ -105,6 +106,7 @@ pub fn search(case: &str, seed: u64, open: &[String]) -> Option<SearchResult> {
         "c09_validate" => Box::new(c09::inputs(seed, open)),
         "c12_parse" => Box::new(c12::parse_inputs(seed)),
         "c15_quoted" | "c17_escape" => Box::new(strings::string_inputs(seed)),
+        "c15_values" => Box::new(strings::value_inputs(seed)),
         "c17_input_value" | "c17_sdl" => Box::new(c17_sdl::inputs(seed, open)),
         _ => return None,
     };
